@@ -92,9 +92,15 @@ func (r *run) execBlock(fr *frame, b *ssa.BasicBlock, st *State, reach string, i
 			r.assume("true", fmt.Sprintf("(< 0 %s)", c))
 			fr.vals[x] = Val{Fn: fv, Term: c, Sort: "Int", Type: x.Type()}
 		case *ssa.Range:
-			r.unsupported("range over map/string (ssa.Range)")
+			if _, isMap := x.X.Type().Underlying().(*types.Map); !isMap {
+				r.unsupported("range over string (ssa.Range)")
+			}
+			m := r.val(fr, st, x.X)
+			ks := r.eng.Sorts.SortOf(x.X.Type().Underlying().(*types.Map).Key())
+			st.iters[x] = fmt.Sprintf("((as const (Array %s Bool)) false)", ks)
+			fr.vals[x] = Val{Term: m.Term, Sort: "Int", Type: x.X.Type()}
 		case *ssa.Next:
-			r.unsupported("ssa.Next")
+			fr.vals[x] = r.execNext(fr, st, x, reach)
 		case *ssa.RunDefers:
 		case *ssa.Defer:
 			r.unsupported("defer")
@@ -579,8 +585,8 @@ func (r *run) execMapUpdate(fr *frame, st *State, x *ssa.MapUpdate, reach string
 	}
 	hd := r.heapGet(st, dom)
 	hv := r.heapGet(st, val)
-	st.heaps[dom] = fmt.Sprintf("(store %s %s (store (select %s %s) %s true))", hd, m.Term, hd, m.Term, k.Term)
-	st.heaps[val] = fmt.Sprintf("(store %s %s (store (select %s %s) %s %s))", hv, m.Term, hv, m.Term, k.Term, v.Term)
+	st.heaps[dom] = r.share(fmt.Sprintf("(store %s %s (store (select %s %s) %s true))", hd, m.Term, hd, m.Term, k.Term), "(Array Int "+r.heapSort[dom]+")")
+	st.heaps[val] = r.share(fmt.Sprintf("(store %s %s (store (select %s %s) %s %s))", hv, m.Term, hv, m.Term, k.Term, v.Term), "(Array Int "+r.heapSort[val]+")")
 }
 
 func (r *run) execLookup(fr *frame, st *State, x *ssa.Lookup, reach string) Val {
@@ -759,4 +765,31 @@ func (r *run) execConvert(fr *frame, st *State, x *ssa.Convert, reach string) Va
 	}
 	r.unsupported("convert %s -> %s", from, to)
 	return Val{}
+}
+
+// execNext models one step of a map iteration with a ghost "visited" set: a step either
+// yields a present key not visited before (with its value), or ends the iteration, and the
+// iteration can only end when every present key has been visited. The order is arbitrary.
+func (r *run) execNext(fr *frame, st *State, x *ssa.Next, reach string) Val {
+	rg, ok := x.Iter.(*ssa.Range)
+	if !ok || x.IsString {
+		r.unsupported("next on a string iterator")
+	}
+	mt := rg.X.Type().Underlying().(*types.Map)
+	m := r.val(fr, st, rg).Term
+	dom, val, _, _ := r.mapHeaps(rg.X.Type())
+	hd := r.heapGet(st, dom)
+	hv := r.heapGet(st, val)
+	visited, live := st.iters[rg]
+	if !live {
+		r.unsupported("iterator used outside its range loop")
+	}
+	okc := r.fresh("next_ok", "Bool")
+	k := r.symbolic("next_k", mt.Key())
+	v := r.symbolic("next_v", mt.Elem())
+	ks := r.eng.Sorts.SortOf(mt.Key())
+	r.assume(reach, fmt.Sprintf("(=> %s (and (not (= %s 0)) (select (select %s %s) %s) (not (select %s %s)) (= %s (select (select %s %s) %s))))", okc, m, hd, m, k.Term, visited, k.Term, v.Term, hv, m, k.Term))
+	r.assume(reach, fmt.Sprintf("(=> (not %s) (forall ((k!n %s)) (! (=> (and (not (= %s 0)) (select (select %s %s) k!n)) (select %s k!n)) :pattern ((select %s k!n)))))", okc, ks, m, hd, m, visited, visited))
+	st.iters[rg] = fmt.Sprintf("(ite %s (store %s %s true) %s)", okc, visited, k.Term, visited)
+	return Val{Sort: "TUPLE", Tup: []Val{{Term: okc, Sort: "Bool", Type: types.Typ[types.Bool]}, k, v}, Type: x.Type()}
 }
